@@ -226,7 +226,10 @@ class _CFIProcedureTracker:
                         and procedure_start is not None
                     ):
                         procedure_end = (idx, offset)
-                        self._tree.addi(procedure_start, procedure_end)
+                        # A procedure can be empty, e.g. after all of its
+                        # code was deleted.
+                        if procedure_start != procedure_end:
+                            self._tree.addi(procedure_start, procedure_end)
 
     def in_procedure(self, block_idx: int, offset: int) -> bool:
         return bool(self._tree.at((block_idx, offset)))
